@@ -270,8 +270,12 @@ def gen_case(rng):
         shapes.append(s)
     # closed shapes with property shapes
     if rng.random() < 0.35:
-        s = S.new_shape(EX.Closed, None)
-        s["targets"]["nodes"] = rng.sample(iri_nodes, 1)
+        # on a node shape the closed node is the focus node; on a property shape it is each value node
+        s = S.new_shape(EX.Closed, None if rng.random() < 0.5 else ("pred", rng.choice(PREDS)))
+        s["targets"]["nodes"] = rng.sample(iri_nodes, rng.randint(1, 2))
+        if s["path"] is not None:
+            for _ in range(rng.randint(1, 2)):
+                data.add((rng.choice(s["targets"]["nodes"]), URIRef(s["path"][1]), rng.choice(iri_nodes)))
         props = []
         for j in range(rng.randint(0, 2)):
             ps = S.new_shape(BNode("cp%d" % j), ("pred", rng.choice(PREDS)) if rng.random() < 0.8 else ("inv", ("pred", rng.choice(PREDS))))
